@@ -3337,7 +3337,8 @@ class Wallet(object):
         utxos = qr.order_by(DbTransaction.confirmations.desc()).all()
         res = []
         for utxo in utxos:
-            u = utxo[0].__dict__
+            # Use a copy: changing the dictionary of a database object that is still in use corrupts the session
+            u = dict(utxo[0].__dict__)
             if '_sa_instance_state' in u:
                 del u['_sa_instance_state']
             u['address'] = utxo[1]
